@@ -26,6 +26,11 @@ from typing import (
 from .fixed import fixed_safe
 
 
+# normalize snaps coordinates to multiples of its tolerance so it needs a positive one;
+# a reuse tolerance of exactly 0 (reuse only exact copies) snaps at float noise level.
+MIN_NORMALIZE_TOLERANCE = 1e-9
+
+
 class ReuseResult(NamedTuple):
     glyph_name: str
     transform: Affine2D
@@ -41,6 +46,8 @@ class GlyphReuseCache:
         # reuse tolerence is relative to viewbox, which is typically much larger
         # than the space normalize operates in. TODO: better default.
         self._normalize_tolerance = self._reuse_tolerance / 10
+        if self._reuse_tolerance == 0:
+            self._normalize_tolerance = MIN_NORMALIZE_TOLERANCE
 
     def try_reuse(self, path: str) -> Optional[ReuseResult]:
         """Try to reproduce path as the transformation of another glyph.
